@@ -47,12 +47,16 @@ Record fdef_ (T : Type) := FD {
 Arguments FD {T}. Arguments fd_ty {T}. Arguments fd_from {T}. Arguments fd_to {T}.
 Arguments fd_kind {T}. Arguments fd_default {T}.
 
-Record vdef_ (T : Type) := VD { vd_from : N; vd_to : option N; vd_fields : list (fdef_ T) }.
-Arguments VD {T}. Arguments vd_from {T}. Arguments vd_to {T}. Arguments vd_fields {T}.
+(* [vd_name]: the variant's identifier (significant for the schema comparison, not for the wire format) *)
+Record vdef_ (T : Type) := VD' { vd_name : bytes; vd_from : N; vd_to : option N; vd_fields : list (fdef_ T) }.
+Arguments VD' {T}. Arguments vd_name {T}. Arguments vd_from {T}. Arguments vd_to {T}. Arguments vd_fields {T}.
+Definition VD {T : Type} (from : N) (to : option N) (fields : list (fdef_ T)) : vdef_ T := VD' [] from to fields.
 
 (* layout facts of an aggregate as the compiler chose them (probed from the real build) *)
 (* [l_explicit_discr]: (enums only) some variant declares an explicit discriminant value *)
-Record lay := Lay { l_size : N; l_align : N; l_offs : list N; l_explicit_discr : bool }.
+(* [l_reprc]: (enums only) the repr attribute contains `C` (what the schema records as has_explicit_repr) *)
+Record lay := Lay' { l_size : N; l_align : N; l_offs : list N; l_explicit_discr : bool; l_reprc : bool }.
+Definition Lay (size align : N) (offs : list N) (explicit_discr : bool) : lay := Lay' size align offs explicit_discr false.
 
 Inductive ty :=
 | TInt (k : ity)
